@@ -124,6 +124,39 @@ def eval_table_case(case, fail):
     if em.direction != tuple(r) and list(em.direction) != list(r):
         fail('direction_attr', f'{em.direction} != {r}')
 
+    # several models queried on the SAME code object and rate (as a parameter
+    # sweep does): each must get its own table, whatever was queried before
+    siblings = []
+    if name == 'XZZX':
+        for ax in domain.AXES.get(cls, []):
+            siblings.append((r, name, {'deformation_axis': ax}))
+        siblings.append((r, name, {}))
+    eps = 3e-6
+    j = int(np.argmax(r))
+    r2 = list(r)
+    r2[j] -= eps
+    r2[(j + 1) % 3] += eps
+    siblings.append((r2, name, dict(kwargs)))
+    siblings.append((r, None, {}))
+    for r_s, n_s, k_s in siblings:
+        em_s = PauliErrorModel(*r_s, deformation_name=n_s, deformation_kwargs=dict(k_s))
+        want_s = expected_table(code, r_s, p, n_s, k_s)
+        got_s = dict(zip('IXYZ', em_s.probability_distribution(code, p)))
+        if any(np.max(np.abs(np.asarray(got_s[c], float) - want_s[c])) > 1e-12 for c in 'IXYZ'):
+            fail('table_value_second_model_same_code',
+                 f'model r={r_s} {n_s} {k_s} queried after r={r} {name} {kwargs} on the same '
+                 f'code object and rate gets a wrong table')
+            break
+        ws = em_s.get_weights(code, p)
+        qs = want_s['X'] + want_s['Y']
+        mid = (qs > 1e-9) & (qs < 1 - 1e-9)
+        if mid.any() and np.max(np.abs(np.asarray(ws[0], float)[mid] - np.log((1 - qs[mid]) / qs[mid]))) > 1e-9:
+            fail('weights_second_model_same_code', f'model r={r_s} {n_s} {k_s}')
+            break
+    again = dict(zip('IXYZ', em.probability_distribution(code, p)))
+    if any(np.max(np.abs(np.asarray(again[c], float) - want[c])) > 1e-12 for c in 'IXYZ'):
+        fail('table_stable_after_other_models', 'table of the first model changed after others were queried')
+
     # --- sampler, deterministic preimage measure --------------------------
     M = case['M']
     counts = {s: np.zeros(n, dtype=int) for s in 'IXYZ'}
